@@ -106,6 +106,9 @@ type Case struct {
 	Repeat   int     `json:"repeat,omitempty"`   // executions per case (schedule diversity)
 	BigCount int     `json:"bigcount,omitempty"` // >0: Jobs is a template, replicated to BigCount independent jobs
 	Procs    int     `json:"procs,omitempty"`    // >0: GOMAXPROCS to run the case under (default-limit cases)
+	// ShareDeps: jobs that list the same dependencies pass the very same
+	// Dependencies slice to Enqueue (only when one goroutine enqueues).
+	ShareDeps bool `json:"sharedeps,omitempty"`
 }
 
 // Limit returns the concurrency limit the case must be held to.
@@ -373,6 +376,7 @@ func GenCase(t *rapid.T, p Profile) *Case {
 			}
 		}
 	}
+	c.ShareDeps = prob(t, "sharedeps", 0.3)
 	if prob(t, "gatecase", p.PGate) {
 		makeGateCase(t, c)
 	} else if prob(t, "barriercase", p.PBarrier) {
@@ -633,6 +637,20 @@ func (c *Case) Labels() []string {
 		}
 		if j.Pace == PAwait && len(j.Deps) > 0 {
 			late = true
+		}
+	}
+	if c.ShareDeps && c.ConcEnq <= 1 {
+		sharedSeen := map[string]bool{}
+		for _, j := range c.Jobs {
+			if len(j.Deps) == 0 {
+				continue
+			}
+			k := fmt.Sprint(j.Deps)
+			if sharedSeen[k] {
+				add("deps:one-slice-shared-by-several-jobs")
+				break
+			}
+			sharedSeen[k] = true
 		}
 	}
 	if ewrap {
